@@ -40,6 +40,10 @@ CHECKS = {
          "About 1.3M calls per quick run of Code::parse (two environments), Code::return_type, Error::to_string, Variable::from_str and Type::from_str on generated text; every construct of the grammar is reached through derivations and the operand-type matrix (60 operand types incl. `!`, `any`, unions of every compound kind x ~100 unary and ~60 binary templates).",
          "Inputs nested deeper than 40 brackets and imports outside the scratch directory are skipped (stack exhaustion and device reads are outside the claim); a panic hook + catch_unwind is the observation.",
          "DESIGN.md section 3, C03"),
+ "C16": ("seeded workload generation + repeated execution on real oversubscribed threads (schedule sampling); oracles: orbit multiset of returned values, per-update bit ownership, brute-force linearizability against the i128 model, sequential-result differential",
+         "Lost, duplicated or torn updates of every assignment operator are made visible by construction (injective orbits, one bit per update, identity updates racing with increments, linearizability of small histories); unshared executions of shared Code/Function values (incl. the lazy iterator helpers) must equal the sequential result. Hundreds of workloads x repetitions per quick run, ~4M shared operations.",
+         "The harness does not own the scheduler: interleavings are sampled by repetition on 16 cores; a race needing one rare interleaving, or a deadlock (reported as inconclusive by the watchdog), can be missed.",
+         "DESIGN.md section 3 C16 and section 7"),
 }
 PENDING = {}
 props = [json.loads(l) for l in open(os.path.join(ROOT, "properties.jsonl"))]
